@@ -25,7 +25,7 @@ fn mk(sel: PoolSel, seed: u64, m: Mutant, full: bool) -> MCase { MCase { sel, po
 
 pub fn strat(sel: PoolSel, seed: u64, max_ops: usize, full_ratio: u32) -> impl Strategy<Value = MCase> {
     let p = mutate::pool(sel, seed);
-    (mutate::mutant_strategy(&p, max_ops), 0u32..100).prop_map(move |(m, x)| mk(sel, seed, m, x < full_ratio))
+    (mutate::mutant_strategy(&p, max_ops), 0u32..100, prop_oneof![3 => Just(RSched::full()), 2 => Just(RSched::dribble(1)), 1 => (2usize..9).prop_map(RSched::dribble), 2 => crate::gen::rsched_strategy()]).prop_map(move |(m, x, rs)| { let mut c = mk(sel, seed, m, x < full_ratio); if sel != PoolSel::KeyLarge { c.rs = rs; } c })
 }
 
 /// Same-recipient neighbours of `base` in the key pool: one from the same sender, one from another.
@@ -74,7 +74,10 @@ pub fn run(ctx: &Ctx) {
     for sel in [PoolSel::Hook, PoolSel::HookPass] {
         let p = mutate::pool(sel, seed);
         let mut cases = Vec::new();
-        for b in 0..p.files.len() { let other = (b + 3) % p.files.len(); for m in mutate::sse_space(&p, b, 4, &[other]) { cases.push(mk(sel, seed, m, true)); } }
+        for b in 0..p.files.len() { let other = (b + 3) % p.files.len(); for m in mutate::sse_space(&p, b, 4, &[other]) {
+            // appended bytes are also presented so that a read ends exactly where the authentic stream ends
+            if matches!(m.ops.last(), Some(mutate::Op::Append { .. })) { let mut c = mk(sel, seed, m.clone(), true); c.rs = RSched { gives: vec![p.files[b].bytes.len()], then: 0 }; cases.push(c); let mut c = mk(sel, seed, m.clone(), true); c.rs = RSched::dribble(1); cases.push(c); }
+            cases.push(mk(sel, seed, m, true)); } }
         ctx.sse_vec(if sel == PoolSel::Hook { "sse_hook" } else { "sse_hook_passaad" }, "36 streams (1..4 records, cs 1/2/4): all bit flips, truncations, 1-byte extensions, record sequences <=4, flag/len edits, chunk ranges of another stream", cases, check);
     }
     // SSE-2: key mode through the public API
